@@ -293,7 +293,23 @@ func (it *Interp) sprintf(format string, args []Val) *StrV {
 		it.p.noteInjective(name, t)
 		it.p.noteGroup("fmt", name, t)
 	}
-	it.strLenTerm(t)
+	lt := it.strLenTerm(t)
+	if !it.p.fmtLenAx[t.id] {
+		// a sound lower bound of the rendered length: literal text, the length of string operands, one character per number
+		it.p.fmtLenAx[t.id] = true
+		lo := BVu(64, 0)
+		for _, pc := range pieces {
+			switch {
+			case pc.b != nil:
+				lo = BVBin("bvadd", lo, BVu(64, uint64(len(pc.b.Bytes))))
+			case pc.t.sort == SStr:
+				lo = BVBin("bvadd", lo, it.strLenTerm(pc.t))
+			default:
+				lo = BVBin("bvadd", lo, BVu(64, 1))
+			}
+		}
+		it.p.assertAxiom(BVCmp("bvuge", lt, lo))
+	}
 	return &StrV{T: t}
 }
 
@@ -687,8 +703,132 @@ func (it *Interp) strSplit(s, sep *StrV) Val {
 		parts = append(parts, &StrV{Bytes: s.Bytes[start:len(s.Bytes):len(s.Bytes)], IsB: true})
 		return &SliceV{Arr: &parts, Len: len(parts), Cap: len(parts)}
 	}
+	if cs, ok := sep.concreteString(); ok && cs == "/" {
+		if parts, ok := it.splitOpaque(it.toA(s)); ok {
+			vals := make([]Val, len(parts))
+			for i, p := range parts {
+				vals[i] = p
+			}
+			return &SliceV{Arr: &vals, Len: len(vals), Cap: len(vals)}
+		}
+	}
 	it.fail("strings.Split on opaque strings is not encodable (use structured bytes)")
 	return nil
+}
+
+// splitOpaque splits an opaque string on '/' when it is built from literals and operands whose rendering cannot contain
+// a '/': decimal numbers (%d) and hexadecimal renderings of hashes and addresses. Literal text is split exactly; every
+// other operand makes the split not encodable.
+func (it *Interp) splitOpaque(t *Term) ([]*StrV, bool) {
+	var done []*StrV
+	cur := strLit("")
+	ok := true
+	feedLit := func(l string) {
+		for {
+			i := strings.IndexByte(l, '/')
+			if i < 0 {
+				cur = it.strConcat(cur, strLit(l))
+				return
+			}
+			cur = it.strConcat(cur, strLit(l[:i]))
+			done = append(done, cur)
+			cur = strLit("")
+			l = l[i+1:]
+		}
+	}
+	var walk func(t *Term)
+	walk = func(t *Term) {
+		if !ok {
+			return
+		}
+		if t.op == "var" {
+			if v, isLit := it.p.litVal[t.name]; isLit {
+				feedLit(v)
+				return
+			}
+			ok = false
+			return
+		}
+		if t.op != "app" {
+			ok = false
+			return
+		}
+		if strings.HasPrefix(t.name, "bytes!") {
+			b := it.fromA(t)
+			if cs, isC := b.concreteString(); isC {
+				feedLit(cs)
+				return
+			}
+			ok = false
+			return
+		}
+		switch t.name {
+		case "concat":
+			walk(t.args[0])
+			walk(t.args[1])
+			return
+		case "hashhex", "addrhex", "hexenc":
+			cur = it.strConcat(cur, &StrV{T: t})
+			return
+		}
+		format, isFmt := it.p.fmtNames[t.name]
+		if !isFmt {
+			ok = false
+			return
+		}
+		ai := 0
+		lit := ""
+		for i := 0; i < len(format); {
+			c := format[i]
+			if c != '%' {
+				lit += string(c)
+				i++
+				continue
+			}
+			if i+1 < len(format) && format[i+1] == '%' {
+				lit += "%"
+				i += 2
+				continue
+			}
+			if i+1 >= len(format) || ai >= len(t.args) || !strings.ContainsRune("dsv", rune(format[i+1])) {
+				ok = false
+				return
+			}
+			feedLit(lit)
+			lit = ""
+			arg := t.args[ai]
+			ai++
+			if arg.sort == SStr {
+				walk(arg)
+				if !ok {
+					return
+				}
+			} else if arg.sort != SBool && format[i+1] != 's' {
+				// a decimal rendering: digits and a sign
+				h := sha256.Sum256([]byte("%d"))
+				name := "fmt!" + hex.EncodeToString(h[:6])
+				dt := App(name, SStr, arg)
+				it.p.fmtNames[name] = "%d"
+				if it.ex.cfg.InjectiveSprintf {
+					it.p.noteInjective(name, dt)
+					it.p.noteGroup("fmt", name, dt)
+				}
+				it.strLenTerm(dt)
+				cur = it.strConcat(cur, &StrV{T: dt})
+			} else {
+				ok = false
+				return
+			}
+			i += 2
+		}
+		feedLit(lit)
+	}
+	walk(t)
+	if !ok {
+		return nil, false
+	}
+	done = append(done, cur)
+	return done, true
 }
 
 func (it *Interp) parseUintB(s *StrV, bits int) Val {
